@@ -380,6 +380,41 @@ fn round_default_is_nearest_integer() {
 }
 
 // ---------------------------------------------------------------------------------------------
+// round with a `precision`: "agree with exact arithmetic or fail" - at the very least a finite receiver must not
+// come back as NaN or an infinity.  `10f64.powi(p)` (libm, does not finish under CBMC) is replaced by ANY
+// non-negative float, +inf and 0 included - what 10^p can be in f64 (an over-approximation: a failing input is
+// replayed natively with a real precision before it counts).
+
+fn powi_any_scale(_x: f64, _n: i32) -> f64 {
+    let m: f64 = kani::any();
+    kani::assume(m >= 0.0);
+    m
+}
+
+// killed by: the pristine text before the fix (`5 | round(precision=400)` was NaN: the scale is +inf)
+#[kani::proof]
+#[kani::unwind(2)]
+#[kani::stub(std::hash::RandomState::new, fixed_state)]
+#[kani::stub(crate::args::Kwargs::get, kwargs_get_model)]
+#[kani::stub(f64::powi, powi_any_scale)]
+fn round_precision_finite_or_error() {
+    env!(ctx, st, kw);
+    let p: i32 = kani::any();
+    kani::assume(p != 0);
+    set_kwargs(("precision", Value::from(p as i64)), None);
+    let f: f64 = kani::any();
+    kani::assume(f.is_finite());
+    let r = round(f, kw.clone(), &st);
+    if let Ok(v) = &r {
+        let g = f64::from_bits(f64_bits(v).unwrap());
+        assert!(g.is_finite());
+    }
+    std::mem::forget(r);
+    std::mem::forget((kw, st));
+    std::mem::forget(ctx);
+}
+
+// ---------------------------------------------------------------------------------------------
 // default
 
 /// (value, is it undefined, is it truthy by the documented table); built one kind at a time so
